@@ -69,6 +69,7 @@ impl Ctx {
 }
 
 thread_local! {
+    static QUIET: RefCell<bool> = RefCell::new(false);
     static CASE_CPU_START: RefCell<u64> = RefCell::new(0);
     static LAST_PANIC: RefCell<Option<String>> = RefCell::new(None);
 }
@@ -89,6 +90,9 @@ pub fn cpu_ms() -> u64 {
 /// Install a panic hook that records "<message> at <file>:<line>" instead of printing.
 pub fn install_panic_hook() {
     std::panic::set_hook(Box::new(|info| {
+        if QUIET.with(|q| *q.borrow()) {
+            return;
+        }
         let loc = info.location().map(|l| format!("{}:{}", l.file(), l.line())).unwrap_or_default();
         let msg = if let Some(s) = info.payload().downcast_ref::<&str>() {
             s.to_string()
@@ -108,6 +112,14 @@ pub fn guarded<R>(f: impl FnOnce() -> R) -> Result<R, String> {
         Ok(r) => Ok(r),
         Err(_) => Err(LAST_PANIC.with(|p| p.borrow_mut().take()).unwrap_or_else(|| "panic".into())),
     }
+}
+
+/// Like `guarded`, but panics are only counted, not described (for workloads where panics are the common case).
+pub fn guarded_quiet<R>(f: impl FnOnce() -> R) -> Result<R, String> {
+    QUIET.with(|q| *q.borrow_mut() = true);
+    let r = std::panic::catch_unwind(std::panic::AssertUnwindSafe(f));
+    QUIET.with(|q| *q.borrow_mut() = false);
+    r.map_err(|_| "panic".to_string())
 }
 
 /// Strip the machine-specific prefix of a panic location so that signatures are stable.
